@@ -61,7 +61,9 @@ def _pairs():
     other = [([("", "m", 1, 1)], [("", "s", 1, 1)]), ([("", "J", 1, 1)], [("", "W", 1, 1)]),
              ([("k", "g", 1, 1)], [("", "m", 2, 1)]), ([("", "m", 1, 1)], [("", "m", 2, 1)]),
              ([("", "N", 1, 1)], [("", "Pa", 1, 1)]), ([("", "mol", 1, 1)], [("", "rad", 1, 1)]),
-             ([("", "m", 1, 1)], [("", "rad", 1, 1)]), ([("", "C", 1, 1)], [("", "K", 1, 1)])]
+             ([("", "m", 1, 1)], [("", "rad", 1, 1)]), ([("", "C", 1, 1)], [("", "K", 1, 1)]),
+             # only a bare number converts to radians: a dimensionless table unit does not
+             ([("", "%", 1, 1)], [("", "rad", 1, 1)]), ([("", "ppth", 1, 1)], [("m", "rad", 1, 1)]), ([("", "[pi]", 1, 1)], [("", "rad", 1, 1)])]
     if TIER != "thorough":
         rng.shuffle(same)
         same = same[:160] + comp
